@@ -16,7 +16,7 @@ def uses_valuerefs(t):
 
 
 def refs_of(t):
-    return [n.ref for n in t.walk() if n.kind == 'REF']
+    return [n.ref for n in t.walk() if n.kind == 'REF'] + [r for n in t.walk() for r in (n.raw_refs or [])]
 
 
 def reachable(spec, modname, name, seen=None):
